@@ -1075,6 +1075,9 @@ theorem shardSize_le_one_iff (size n : Nat) (hn : 1 â‰¤ n) : shardSize size n â‰
     simp only [hd0, if_false]
     split <;> omega
 
+/-- 2 (FIFO): Get is the lookup itself and has no effect on the state (no recency in a FIFO) -/
+theorem get_is_lookup (c : Cache) (k : Bytes) : c.get k = toMap c k := rfl
+
 /-- 3 (FIFO): Remove erases exactly the key -/
 theorem remove_is_erase (size : Nat) (c : Cache) (k x : Bytes) (h : CacheInv size c) :
     toMap (c.remove k) x = if x = k then none else toMap c x := by
